@@ -142,6 +142,39 @@ pub fn run(ctx: &Ctx) -> Rep {
     });
     let (r0, xs0) = merge_states(s);
     rep.merge(r0);
+    // card bits combined with every subset of the twelve non-card bits: no card bit, each card bit,
+    // each pair of card bits (x 4,096 subsets); three card bits with the empty / full / single-bit subsets
+    let junk_units: usize = if ctx.smoke() { 0 } else { 64 };
+    let sj = par_run(ctx, junk_units + 1, mk, |st, u| {
+        let junk = |j: u64| j << 52;
+        if u < junk_units {
+            for j in ((u as u64) * 64)..((u as u64 + 1) * 64) {
+                check(st, junk(j));
+                for a in 0..52 {
+                    check(st, (1u64 << a) | junk(j));
+                    for b in (a + 1)..52 {
+                        check(st, (1u64 << a) | (1u64 << b) | junk(j));
+                    }
+                }
+                st.rep.distinct += 1 + 52 + 1326;
+            }
+            st.rep.add("card_bits_x_junk_bit_subsets", 64 * 1379);
+        } else if junk_units > 0 {
+            let few: Vec<u64> = std::iter::once(0).chain(std::iter::once(4095)).chain((0..12).map(|k| 1u64 << k)).collect();
+            for a in 0..52 {
+                for b in (a + 1)..52 {
+                    for c in (b + 1)..52 {
+                        for &j in &few {
+                            check(st, (1u64 << a) | (1u64 << b) | (1u64 << c) | junk(j));
+                        }
+                    }
+                }
+            }
+            st.rep.add("card_bits_x_junk_bit_subsets", 22100 * 14);
+        }
+    });
+    let (rj, xsj) = merge_states(sj);
+    rep.merge(rj);
     let s = par_run(ctx, chunks, mk, |st, ch| {
         let mut rng = Rng::new(seed, 0xC16_0000 + ch as u64);
         for it in 0..(n_rand / chunks) {
@@ -167,7 +200,7 @@ pub fn run(ctx: &Ctx) -> Rep {
     let (r, xs) = merge_states(s);
     rep.merge(r);
     let mut acc = mk();
-    for x in xs0.into_iter().chain(xs) {
+    for x in xs0.into_iter().chain(xsj).chain(xs) {
         acc.ok += x.ok;
         acc.not_enough += x.not_enough;
         acc.too_many += x.too_many;
@@ -194,7 +227,7 @@ pub fn run(ctx: &Ctx) -> Rep {
     }
     rep.exhaustive = Some(false);
     rep.rule = format!(
-        "0, all 64 one-bit and all 2,016 two-bit values{}, boundary sets, and {} seeded sets cycling through every population count 0..64; \
+        "0, all 64 one-bit and all 2,016 two-bit values{}, boundary sets, zero / one / two card bits with every subset of the twelve non-card bits, and {} seeded sets cycling through every population count 0..64; \
          model = descending bit scan; distinct = structured values + seeded values (conservative)",
         if ctx.thorough() { ", all 41,664 three-bit values" } else { "" },
         n_rand
